@@ -70,6 +70,15 @@ func c16Cells(tier string) []string {
 			}
 		}
 	}
+	// a stored name that only ANOTHER file of the same --all run stores (process-wide state must not make it resolvable)
+	for _, which := range []string{"middle", "last"} {
+		for _, cmd := range []string{"update-all", "compare-all", "compare-all-gh"} {
+			cells = append(cells, "unknown-stored-elsewhere|top+"+which+"|"+cmd)
+		}
+	}
+	for _, cmd := range []string{"generate", "update", "compare"} {
+		cells = append(cells, "unknown-stored-elsewhere|top|"+cmd)
+	}
 	for _, cl := range []string{"unsupported-flag", "stray-block-end"} {
 		for _, cmd := range []string{"format", "format-all"} {
 			cells = append(cells, cl+"|top|"+cmd)
@@ -241,6 +250,18 @@ func genC16(t *rapid.T, tier string) (*World, any) {
 		if strings.HasPrefix(cmd, "format") {
 			p.Mode = "loud-or-complete"
 		}
+	case class == "unknown-stored-elsewhere":
+		// the first file in walk order stores "shared"; the victim only reads it
+		if victim == targets[0] {
+			victim = targets[2]
+			p.Argv = argv(victim)
+			p.TgtLine = secRuleLine[victim]
+		}
+		store := append(append([]string{}, progs[targets[0]]...), "##!> assemble", "  left", "  ##!=< shared", "  right", "##!<")
+		w.Put("crs/regex-assembly/"+targets[0]+".ra", joinLines(store))
+		control.Put("crs/regex-assembly/"+targets[0]+".ra", joinLines(store))
+		use := append(append([]string{}, progs[victim]...), "##!> assemble", "  mid", "  ##!=> shared", "  end", "##!<")
+		w.Put("crs/regex-assembly/"+victim+".ra", joinLines(use))
 	case class == "rule-id-absent":
 		// an assembly file for a rule the rules file does not contain (sorted between the others for "middle")
 		name := map[string]string{"first": "942090", "middle": "942105", "last": "942190"}[which]
